@@ -486,18 +486,6 @@ def decode_idx(ix):
     return tuple(out)
 
 
-def fmt_idx(ix):
-    def f(i):
-        if i == "...":
-            return "..."
-        if "int" in i:
-            return str(i["int"])
-        if "slice" in i:
-            return ":".join("" if v is None else str(v) for v in i["slice"])
-        return "T" + str(i["tensor"])
-    return "[" + ", ".join(f(i) for i in ix) + "]"
-
-
 def expand_idx(ix, nd):
     """one entry per dimension (None where the expression does not address the dimension)"""
     if "..." in ix:
@@ -1280,15 +1268,15 @@ SPEC = PropertySpec(
         "batch permutation of the lazy tensor (_permute_batch) is not part of the stated relations",
     ],
     subchecks=[
-        Subcheck("route.diag", run_diag, strategy=diag_case, quick=640, thorough=30000, min_shard=40),
-        Subcheck("route.transpose", run_transpose, strategy=setup, quick=640, thorough=30000, min_shard=40),
-        Subcheck("route.lazy_eager", run_lazy_eager, strategy=lazy_case, quick=640, thorough=30000, min_shard=40),
-        Subcheck("index.sampled", run_index, strategy=index_case, quick=6400, thorough=250000, min_shard=200),
+        Subcheck("route.diag", run_diag, strategy=diag_case, quick=800, thorough=30000, min_shard=40),
+        Subcheck("route.transpose", run_transpose, strategy=setup, quick=800, thorough=30000, min_shard=40),
+        Subcheck("route.lazy_eager", run_lazy_eager, strategy=lazy_case, quick=800, thorough=30000, min_shard=40),
+        Subcheck("index.sampled", run_index, strategy=index_case, quick=10000, thorough=250000, min_shard=200),
         Subcheck("index.exhaustive", run_index_enum, enumerate=enumerate_index, exhaustive_note=EXH_NOTE),
-        Subcheck("lazy.ops", run_ops, strategy=ops_case, quick=2000, thorough=60000, min_shard=100),
+        Subcheck("lazy.ops", run_ops, strategy=ops_case, quick=2400, thorough=60000, min_shard=100),
         Subcheck("blocks.stacked", run_blocks, strategy=blocks_case, quick=800, thorough=30000, min_shard=50),
         Subcheck("active_dims.restrict", run_active_dims, strategy=ad_case, quick=2400, thorough=60000, min_shard=100),
-        Subcheck("batch.getitem", run_getitem, strategy=getitem_case, quick=2000, thorough=60000, min_shard=100),
+        Subcheck("batch.getitem", run_getitem, strategy=getitem_case, quick=2400, thorough=60000, min_shard=100),
         Subcheck("batch.getitem_exhaustive", run_getitem_enum, enumerate=enumerate_getitem,
                  exhaustive_note="batch.getitem_exhaustive: kernel[idx] for every index tuple (all ints of both signs, the slice family, three index "
                                  "tensors; all prefixes) over the batch dimensions of 7 fixed batched kernels (batch shapes (2,), (3,2); with and "
